@@ -96,13 +96,16 @@ package dao
 //@ ensures result == nil && is(conv, *native.candidate) ==> kvVotes(dao, id)[string(key)] == (&conv.(*native.candidate).Votes).v && kvReg(dao, id)[string(key)] == conv.(*native.candidate).Registered
 //@ ensures result != nil ==> has(kv(dao, id), string(key)) == old(has(kv(dao, id), string(key))) && kvVotes(dao, id)[string(key)] == old(kvVotes(dao, id)[string(key)]) && kvReg(dao, id)[string(key)] == old(kvReg(dao, id)[string(key)])
 
-// The native-contract cache accessors touch the cache maps only (assumed).
+// The native-contract cache accessors touch the cache maps only (assumed). The cache a read-only
+// access returns may belong to a lower DAO layer (it is shared with it): nothing may be written
+// through it; only the copy GetRWCache makes for this layer may be written (C04).
 //@ func (*Simple).GetRWCache
 //@ assumed
 //@ modifies dao.nativeCache
 //@ func (*Simple).GetROCache
 //@ assumed
 //@ pure
+//@ opt result readonly
 
 // C07: putting a transaction on chain (re)writes the conflict record of every hash it names
 // (unless a block is stored under that hash) before the per-signer records: a signer record is
@@ -126,3 +129,4 @@ package dao
 //@ requires dao != nil && dao.Store != nil
 //@ call (*MemCachedStore).Seek requires[ownprefix] fresh(arg1.Prefix) || len(arg1.Prefix) == 0
 //@ call (*MemCachedStore).Seek requires[range] arg1.Backwards == rng.Backwards && same(arg1.Start, rng.Start)
+
